@@ -55,14 +55,14 @@ def apply_op(cache, op):
     if kind == 'get':
         return cache[op[1]]
     if kind == 'getd':
-        return cache.get(op[1], -1)
+        return cache.get(op[1], 99)
     if kind == 'del':
         del cache[op[1]]
         return None
     if kind == 'pop':
         return cache.pop(op[1])
     if kind == 'popd':
-        return cache.pop(op[1], -1)
+        return cache.pop(op[1], 99)
     if kind == 'setdefault':
         return cache.setdefault(op[1], op[2])
     if kind == 'update':
@@ -481,21 +481,48 @@ class C03(Property):
         return failure.tag == 'reader_not_atomic'
 
     # ------------------------------------------------------------------ correspondence with the Lean C02 model
+    @staticmethod
+    def _ptxt(pairs):
+        return ','.join('%d.%d' % (k, v) for k, v in pairs) or '-'
+
     def line(self, case):
-        try:
-            from bv.props import c02  # noqa
-        except Exception:
-            return None
-        fn = getattr(c02, 'c03_line', None)
-        if fn is None:
-            return None
         obs = self._obs_cache.get(self.key(case))
         if obs is None or 'exc' in obs or 'unusable' in obs or obs.get('deadlock') or obs.get('step_limit'):
             return None
         serial_ops = self._linearised(case, obs)
         if serial_ops is None:
             return None
-        return fn(case, serial_ops)
+        toks = ['1' if case['cls'] == 'LRU' else '0', str(case['max']), '1' if case['on_miss'] else '0',
+                self._ptxt(case['init'])]
+        for _t, _i, op in serial_ops:
+            k = op[0]
+            if k == 'set':
+                toks.append('s:%d:%d' % (op[1], op[2]))
+            elif k == 'get':
+                toks.append('g:%d' % op[1])
+            elif k == 'getd':
+                toks.append('G:%d:99' % op[1])
+            elif k == 'del':
+                toks.append('d:%d' % op[1])
+            elif k == 'pop':
+                toks.append('p:%d' % op[1])
+            elif k == 'popd':
+                toks.append('P:%d:99' % op[1])
+            elif k == 'setdefault':
+                toks.append('D:%d:%d' % (op[1], op[2]))
+            elif k == 'update':
+                toks.append('u:' + self._ptxt(op[1]))
+            elif k == 'popitem':
+                toks.append('I')
+            elif k == 'clear':
+                toks.append('c')
+            elif k == 'copy':
+                toks.append('C')
+            elif k == 'eq':
+                toks.append('e:' + self._ptxt(op[1]))
+            else:
+                return None
+        return ' '.join(toks)
 
     def _linearised(self, case, obs):
         """locked operations in lock-acquisition order (unlocked readers are not part of the model run)"""
@@ -512,9 +539,32 @@ class C03(Property):
         return ops
 
     def render(self, case, obs):
-        from bv.props import c02
-        serial_ops = self._linearised(case, obs)
-        txt = c02.c03_render(case, serial_ops, obs)
+        serial_ops = self._linearised(case, obs) or []
+        outs = []
+        for t, i, op in serial_ops:
+            try:
+                r = obs['results'][t][i]
+            except IndexError:
+                outs.append('?')
+                continue
+            if r[0] == 'exc':
+                outs.append('!' + r[1])
+            else:
+                v = r[1]
+                if v is None:
+                    outs.append('N')
+                elif v is True:
+                    outs.append('t')
+                elif v is False:
+                    outs.append('f')
+                elif isinstance(v, int):
+                    outs.append('v%d' % v)
+                elif op[0] == 'popitem':
+                    outs.append('p%d.%d' % (v[0], v[1]))
+                else:
+                    outs.append('L' + self._ptxt(v))
+        order = ';'.join(('+'.join(str(x) for x in g) or '-') if isinstance(g, list) else str(g) for g in obs.get('order', []))
+        txt = (','.join(outs) or '-') + '|' + self._ptxt(obs.get('final', [])) + '|' + order
         if obs.get('lockset'):
             txt += ' LOCKSET-VIOLATION %r' % (obs['lockset'][:3],)
         return txt
